@@ -1652,6 +1652,8 @@ func ruleStdioDelivery(c *Ctx) {
 			}
 			destMask := uint64(0)
 			nDest := 0
+			writeDest := map[*Node][]*types.Var{}
+			badNil := false
 			for _, m := range g.Nodes {
 				if m.Ast == nil || !isWrite(m) {
 					continue
@@ -1668,6 +1670,7 @@ func ruleStdioDelivery(c *Ctx) {
 					}
 					if v, ok := identObj(info, d).(*types.Var); ok && d != nil && !v.IsField() {
 						nDest++
+						writeDest[m] = append(writeDest[m], v)
 						if !isWriterParam[v] {
 							destMask |= bit(v)
 						}
@@ -1724,6 +1727,12 @@ func ruleStdioDelivery(c *Ctx) {
 				for _, o := range outs {
 					if cur.n.Ast != nil {
 						if isWrite(cur.n) {
+							// the destination must hold a writer here
+							for _, dv := range writeDest[cur.n] {
+								if !isWriterParam[dv] && !o.Has(holdKey(dv)) {
+									badNil = true
+								}
+							}
 							for _, k := range o.Keys("H:") {
 								o = o.Without(k)
 							}
@@ -1766,6 +1775,9 @@ func ruleStdioDelivery(c *Ctx) {
 			switch {
 			case nArms < 1:
 				c.R.Undecided("R-ROUTE/stdio", f.Name, construct, fmt.Sprintf("only %d write call(s) with a variable destination found, 1 expected", nArms))
+			case badNil:
+				c.R.Violate("R-ROUTE/stdio", p.Pos(recvN.Ast), f.Name, "a chunk is written only to a selected writer",
+					"the write of a received chunk can execute on a path on which no writer was selected for it (the unknown-channel branch no longer skips the chunk): the destination is a nil io.Writer and the host panics on data for a channel it does not know", nil)
 			case bad:
 				c.R.Violate("R-ROUTE/stdio", p.Pos(recvN.Ast), f.Name, construct,
 					"a chunk received for stdout or stderr can reach the next Recv (or the end of Run) without its bytes being written to the selected writer (the write became conditional): those bytes of the plugin's output are dropped", nil)
